@@ -6,6 +6,7 @@
 //
 ///////////////////////////////////////////////////////////////////////////////
 #define CPPCMS_SOURCE
+#include <booster/verif_hooks.h>
 #include <cppcms/config.h>
 #include <set>
 
@@ -338,9 +339,11 @@ public:
 		while(size > 0 && (not_enough_memory() || (size>=limit && limit>0)))
 		{
 			if(!timeout.empty() && timeout.begin()->first<now) {
+				CPPCMS_VERIF_PROBE("cache.evict_expired_first");
 				main=timeout.begin()->second;
 			}
 			else if(!lru.empty()){
+				CPPCMS_VERIF_PROBE("cache.evict_lru_tail");
 				main=*lru.rbegin();
 			}
 			else
@@ -417,6 +420,7 @@ public:
 		}
 		catch(std::bad_alloc const &e)
 		{
+			CPPCMS_VERIF_PROBE("cache.bad_alloc_clears_cache");
 			nl_clear();
 		}
 	}
